@@ -68,6 +68,8 @@ Definition step (k : kind) (o : op) (s : cst) : cst * bool :=
   | KList, ExtendSelf =>
       let values := materialise LiveIt s in         (* list(items) with items the live list: a snapshot *)
       (fold_left (add_item KList) values s, false)
+  | _, AssignView v =>          (* make_list(value) drains the lazy view BEFORE attr._clear(): it still sees the old contents *)
+      (desc_set k (Fresh (view_apply v (items s))) s, false)
   | KSet, Add x => (add_item KSet s x, false)
   | KSet, Update vss => (fold_left (fun s vs => fold_left (add_item KSet) vs s) vss s, false)
   | _, _ => (s, false)
@@ -139,6 +141,27 @@ Definition setitem_then_infer (i : Z) (x : elt) (inf : list elt) (l : list elt) 
 (* before cd6cc17 _on_add ran first: the inferred elements were appended before the builtin resolved a negative index *)
 Definition setitem_grown (i : Z) (x : elt) (inf : list elt) (l : list elt) : option (list elt) := py_setitem i x (l ++ inf).
 
+(* ---- a shallow copy of the owner:  q = copy.copy(p) -------------------------------------------------------------------------
+   The copy bypasses __set__: p and q hold ONE monitored container (plain Python shares the list as well).  The container records for
+   the owner it is bound to: __get__ (every x.f.<method>(...), x.f[i] = v, x.f += ...) re-binds it to the reader; plain assignment
+   x.f = value goes through __set__ only, which does NOT re-bind an already monitored attribute (known finding C16-j). *)
+Inductive who := WP | WQ.
+Inductive cop :=
+| CRead (w : who)                       (* w.f is read *)
+| CAppend (w : who) (x : elt)           (* w.f.append(x) *)
+| CAssign (w : who) (vs : list elt).    (* w.f = [...] *)
+Record cshared := { sitems : list elt; recs : who -> list elt; bound : who }.
+Definition rec_for (w : who) (xs : list elt) (s : cshared) : who -> list elt :=
+  fun w' => match w, w' with WP, WP | WQ, WQ => recs s w' ++ xs | _, _ => recs s w' end.
+Definition cstep (o : cop) (s : cshared) : cshared :=
+  match o with
+  | CRead w => {| sitems := sitems s; recs := recs s; bound := w |}
+  | CAppend w x => {| sitems := sitems s ++ [x]; recs := rec_for w [x] s; bound := w |}
+  | CAssign w vs => {| sitems := vs; recs := rec_for (bound s) vs s; bound := bound s |}
+  end.
+Definition clone_init (vs0 : list elt) : cshared :=
+  {| sitems := vs0; recs := fun w => match w with WP => vs0 | WQ => [] end; bound := WP |}.
+
 From Krrood Require Import Base.Sx.
 Definition model_out (k : kind) (ops : list op) (vs0 : list elt) : sx :=
   let '(tr, fin) := run k ops (init k vs0) in SL [trace_sx tr; elts_sx (rec fin)].
@@ -149,3 +172,6 @@ Definition ctor_copy_out (vs0 : list elt) (x : elt) : sx :=
   SL [elts_sx (items p); elts_sx (rec p); elts_sx (items q); elts_sx (rec q)].
 Definition setitem_then_infer_out (i : Z) (x : elt) (inf l : list elt) : sx :=
   match setitem_then_infer i x inf l with Some l' => elts_sx l' | None => SZ (-1) end.
+Definition clone_out (vs0 : list elt) (ops : list cop) : sx :=
+  let s := fold_left (fun s o => cstep o s) ops (clone_init vs0) in
+  SL [elts_sx (sitems s); elts_sx (recs s WP); elts_sx (recs s WQ)].
